@@ -150,6 +150,13 @@ func (g *G) Key(label string) []byte {
 		if rapid.IntRange(0, 3).Draw(g.t, label+".kx") == 0 {
 			k = append(k, rapid.SampledFrom(Sigma).Draw(g.t, label+".ks")...)
 		}
+		if rapid.IntRange(0, 9).Draw(g.t, label+".kpad") == 0 {
+			// still unique, but of a length on either side of the string-head boundaries of CBOR (23/24, 31/32, 255/256)
+			n := rapid.SampledFrom([]int{22, 23, 24, 25, 30, 31, 32, 33, 255, 256}).Draw(g.t, label+".klen")
+			for len(k) < n {
+				k = append(k, '_')
+			}
+		}
 		return k
 	}
 	// short keys mostly
@@ -361,6 +368,11 @@ func (g *G) Iface(depth int, label string, jsonable bool) *Iface {
 	switch k {
 	case "str":
 		i.S = g.Bytes(label + ".s")
+		if rapid.IntRange(0, 7).Draw(t, label+".sesc") == 0 {
+			// text that looks like what an encoder writes: a literal backslash in front of an escape name,
+			// characters encoding/json escapes for HTML, escape sequences spelled out
+			i.S = []byte(rapid.SampledFrom([]string{`\u003c`, `a\u0026b`, `\u003e\u003c`, `<&>`, `\\u003c`, `\n`, `\"`, `\u2028`, "\u2028\u2029", `\ud800`, `%s %d`, `{"a":1}`, `\`}).Draw(t, label+".sescv"))
+		}
 	case "int":
 		i.I = g.Int(64, label+".i")
 	case "float":
@@ -551,6 +563,10 @@ func (g *G) Scalar(typ string, depth int, label string) Val {
 			v.Sec2 = rapid.Int64Range(nanoMin, nanoMax).Draw(t, label+".far2")
 		}
 		v.Nse2 = rapid.SampledFrom([]int64{0, 1, 999999999, 500000000}).Draw(t, label+".n2")
+		if rapid.IntRange(0, 7).Draw(t, label+".zerostart") == 0 {
+			// a start that was never set (the zero time.Time), or the epoch: the difference is still t - start
+			v.Sec2, v.Nse2 = rapid.SampledFrom([]int64{-62135596800, 0}).Draw(t, label+".z2"), 0
+		}
 	case "timestamp", "caller", "stack", "reset":
 	case "ctx":
 		v.S = []byte("ctx-" + rapid.StringMatching(`[a-z]{3}`).Draw(t, label+".cm"))
@@ -1191,6 +1207,11 @@ func (g *G) scale(p *Program) {
 		}
 	case "manyevents":
 		n := rapid.SampledFrom([]int{70, 300}).Draw(t, "scale.nevents")
+		// many copies of a small event; a large one is repeated only as often as keeps the program below
+		// a few megabytes (the harnesses serialise every program, also in 32-bit builds)
+		if b, err := json.Marshal(p.Events[ei]); err == nil && n*len(b) > 4<<20 {
+			n = (4 << 20) / len(b)
+		}
 		for i := 0; i < n; i++ {
 			p.Events = append(p.Events, p.Events[ei])
 		}
